@@ -286,7 +286,7 @@ Definition target_text (en : env) (props : list string) (t : target) : string :=
   | TLoc i => name_of (nth i (e_locals en) (Leaf KLocal "" 0 true))
   | TPar i => name_of (nth i (e_params en) (Leaf KParam "" 0 true))
   | TGlob n => nm en n
-  | TProp n => if mem_str (nm en n) props || mem_str (nm en n) VARIABLE_KNOWN_SYMBOLS then nm en n else ("the " ++ nm en n)%string
+  | TProp n | TByName n => if mem_str (nm en n) props || mem_str (nm en n) VARIABLE_KNOWN_SYMBOLS then nm en n else ("the " ++ nm en n)%string
   end.
 (* the canonical Lingo line of a statement (without indentation and line end) *)
 Definition stmt_text (en : env) (props : list string) (s : stmt) : string :=
@@ -354,10 +354,12 @@ Proof.
     change (String.eqb "assign" "assign") with true. cbn iota.
     pose proof (gen_lingo_is_render en e He pc ind) as E. unfold gen_lingo in E. rewrite E.
     assert (Htt : gen_lingo_sp false (target_node en props (pc + zlen (compile_e e))%Z t) ind = target_text en props t).
-    { destruct t as [i|i|n|n]; cbn [target_node target_text].
+    { destruct t as [i|i|n|n|n]; cbn [target_node target_text].
       - destruct (nth i (e_locals en) (Leaf KLocal "" 0 true)); try contradiction. cbn in Ht. subst k. reflexivity.
       - destruct (nth i (e_params en) (Leaf KParam "" 0 true)); try contradiction. cbn in Ht. subst k. reflexivity.
       - reflexivity.
+      - destruct (mem_str (nm en n) props); [reflexivity|]. cbn [orb gen_lingo_sp].
+        destruct (mem_str (nm en n) VARIABLE_KNOWN_SYMBOLS); reflexivity.
       - destruct (mem_str (nm en n) props); [reflexivity|]. cbn [orb gen_lingo_sp].
         destruct (mem_str (nm en n) VARIABLE_KNOWN_SYMBOLS); reflexivity. }
     rewrite Htt, Hf. cbn [andb]. repeat rewrite sappend_assoc. reflexivity.
